@@ -172,7 +172,8 @@ func c02fKindOf(m lnwire.Message) int {
 // 1 = only that case: nothing stored under unsignedAckedUpdatesKey (we have
 // never revoked on this channel) and a local update awaits the peer's signature.
 func c02fTailFilter(maxUpd int, deep bool, fresh int) {
-	c02Mode(false, false, deep)
+	// quick: 11 kind sequences of the stored updates; thorough: all 31
+	c02Mode(false, false, false)
 	c02AllPairs = deep
 	db := &c02fDB{top: &c02fNode{}}
 	cdb := &ChannelStateDB{backend: db, parent: &DB{}}
@@ -324,3 +325,151 @@ func VerifC02TailFilterDeep() { c02fTailFilter(2, true, 0) }
 
 // VerifC02TailFilterFresh: the case of the CANDIDATE FINDING alone.
 func VerifC02TailFilterFresh() { c02fTailFilter(0, false, 1) }
+
+// ---------------------------------------------------------------------------
+// the mirror filter: UpdateChannelCommitment (RevokeCurrentCommitment's write)
+// ---------------------------------------------------------------------------
+
+func c02fMkTx(lock uint32) *wire.MsgTx {
+	return &wire.MsgTx{Version: 2, LockTime: lock,
+		TxIn:  []*wire.TxIn{{Sequence: 7}},
+		TxOut: []*wire.TxOut{{Value: 1000, PkScript: []byte{0x51}}}}
+}
+
+// c02fRevokeFilter: the real UpdateChannelCommitment. Stored before: <= 2 of
+// our settle/fail/fee updates awaiting the peer's signature (any kinds, symbolic
+// indexes). Handed over: the new local commitment (symbolic LocalLogIndex = how
+// far into our log the peer's signature reaches) and <= 1 unsigned-acked update.
+// Oracle: afterwards exactly the stored updates the new commitment does not
+// cover (index >= LocalLogIndex) still await the peer's signature; the others
+// are final and reported (settled / failed by HTLC id); the unsigned-acked
+// updates and the commitment read back as handed over.
+func c02fRevokeFilter(deep bool) {
+	c02Mode(false, false, false)
+	db := &c02fDB{top: &c02fNode{}}
+	cdb := &ChannelStateDB{backend: db, parent: &DB{}}
+	store, err := shachain.NewRevocationStoreFromBytes(bytes.NewReader(make([]byte, 1+8)))
+	vAssert(err == nil, "revoke-filter: the secret store is built")
+	prod, err := shachain.NewRevocationProducerFromBytes(make([]byte, 32))
+	vAssert(err == nil, "revoke-filter: the producer is built")
+	l := vU64("localHeight")
+	vAssume(l < 1<<48) // 48-bit commitment numbers
+	ch := &OpenChannel{
+		ChanType:                SingleFunderTweaklessBit | AnchorOutputsBit | ZeroHtlcTxFeeBit | NoFundingTxBit,
+		ChainHash:               chainhash.Hash{1, 2, 3},
+		FundingOutpoint:         wire.OutPoint{Hash: chainhash.Hash{9, 8, 7}, Index: 1},
+		ShortChannelID:          lnwire.NewShortChanIDFromInt(0x0102030405060708),
+		IdentityPub:             c02CurvePoint(1),
+		RevocationProducer:      prod,
+		RevocationStore:         store,
+		RemoteCurrentRevocation: c02CurvePoint(0),
+		RemoteNextRevocation:    c02CurvePoint(1),
+		LocalCommitment:         ChannelCommitment{CommitHeight: l, LocalLogIndex: vU64("oldLocalLogIndex"), CommitTx: c02fMkTx(1), CommitSig: []byte{1}},
+		RemoteCommitment:        ChannelCommitment{CommitHeight: vU64("remoteHeight"), CommitTx: c02fMkTx(2), CommitSig: []byte{2}},
+		Db:                      cdb,
+	}
+	var kb bytes.Buffer
+	vAssert(graphdb.WriteOutpoint(&kb, &ch.FundingOutpoint) == nil, "revoke-filter: outpoint key")
+	bkt := db.top.mk(openChannelBucket).mk(ch.IdentityPub.SerializeCompressed()).mk(ch.ChainHash[:]).mk(kb.Bytes())
+	vAssert(putOpenChannel(bkt, ch) == nil, "revoke-filter: putOpenChannel succeeds")
+
+	// stored by the last AdvanceCommitChainTail (absent before the first one)
+	var peer []LogUpdate
+	stored := vChoice("peerStored", 2) == 1
+	if stored {
+		n := vChoice("nPeer", 3)
+		k := 0
+		for i := 0; i < n; i++ {
+			if i == 0 || deep {
+				k = vChoice("peerKind", 4)
+			} else {
+				k = (k + 1) % 4
+			}
+			peer = append(peer, LogUpdate{LogIndex: vU64("peerLogIndex"), UpdateMsg: c02Update(c02KindFulfill+k, 0)})
+		}
+		var pb bytes.Buffer
+		vAssert(serializeLogUpdates(&pb, peer) == nil && bkt.Put(remoteUnsignedLocalUpdatesKey, pb.Bytes()) == nil, "revoke-filter: the local updates awaiting a signature are stored")
+	}
+	bound := vU64("newLocalLogIndex")
+	newLocal := &ChannelCommitment{CommitHeight: l + 1, LocalLogIndex: bound, RemoteLogIndex: vU64("newRemoteLogIndex"),
+		LocalHtlcIndex: vU64("newLocalHtlcIndex"), RemoteHtlcIndex: vU64("newRemoteHtlcIndex"),
+		LocalBalance: lnwire.MilliSatoshi(vU64("newLocalBalance")), RemoteBalance: lnwire.MilliSatoshi(vU64("newRemoteBalance")),
+		CommitTx: c02fMkTx(3), CommitSig: []byte{3}}
+	var acked []LogUpdate
+	if ak := vChoice("ackedShape", 3); ak > 0 {
+		acked = []LogUpdate{{LogIndex: vU64("ackedLogIndex"), UpdateMsg: c02Update([...]int{c02KindAdd, c02KindFail}[ak-1], 0)}}
+	}
+	// reference, from the pre-state
+	var wantLeft []LogUpdate
+	type fin struct {
+		id      uint64
+		settled bool
+	}
+	var wantFinal []fin
+	for _, u := range peer {
+		if u.LogIndex >= bound {
+			wantLeft = append(wantLeft, u)
+			continue
+		}
+		switch m := u.UpdateMsg.(type) {
+		case *lnwire.UpdateFulfillHTLC:
+			wantFinal = append(wantFinal, fin{m.ID, true})
+		case *lnwire.UpdateFailHTLC:
+			wantFinal = append(wantFinal, fin{m.ID, false})
+		case *lnwire.UpdateFailMalformedHTLC:
+			wantFinal = append(wantFinal, fin{m.ID, false})
+		}
+	}
+	if len(wantFinal) == 2 {
+		// distinct HTLCs (an Add has at most one removal)
+		vAssume(wantFinal[0].id != wantFinal[1].id)
+	}
+
+	final, err := cdb.UpdateChannelCommitment(ch, newLocal, acked)
+	vAssert(err == nil, "revoke-filter: UpdateChannelCommitment succeeds")
+	if err != nil {
+		return
+	}
+	left, lerr := cdb.RemoteUnsignedLocalUpdates(ch)
+	vAssert(lerr == nil, "revoke-filter: RemoteUnsignedLocalUpdates reads back")
+	vAssert(len(left) == len(wantLeft), "revoke-filter: exactly the local updates the new local commitment does not cover still await the peer's signature (index >= its LocalLogIndex)")
+	if len(left) == len(wantLeft) {
+		for i := range wantLeft {
+			vAssert(left[i].LogIndex == wantLeft[i].LogIndex && c02MsgEq(left[i].UpdateMsg, wantLeft[i].UpdateMsg),
+				"revoke-filter: a surviving local update is unchanged and in order")
+		}
+	}
+	vAssert(len(final) == len(wantFinal), "revoke-filter: one reported resolution per settle/fail that became final")
+	for _, f := range wantFinal {
+		got, ok := final[f.id]
+		vAssert(ok && got == f.settled, "revoke-filter: the reported resolution names the HTLC and whether it was settled")
+	}
+	gotAcked, aerr := cdb.UnsignedAckedUpdates(ch)
+	vAssert(aerr == nil, "revoke-filter: UnsignedAckedUpdates reads back")
+	c02AssertUpdates(gotAcked, acked)
+	g, rerr := fetchOpenChannel(bkt, &ch.FundingOutpoint)
+	vAssert(rerr == nil && g != nil, "revoke-filter: the channel reloads")
+	if rerr == nil && g != nil {
+		c := &g.LocalCommitment
+		vAssert(c.CommitHeight == l+1 && c.LocalLogIndex == bound && c.RemoteLogIndex == newLocal.RemoteLogIndex &&
+			c.LocalHtlcIndex == newLocal.LocalHtlcIndex && c.RemoteHtlcIndex == newLocal.RemoteHtlcIndex &&
+			c.LocalBalance == newLocal.LocalBalance && c.RemoteBalance == newLocal.RemoteBalance, "revoke-filter: a reload reads the new local commitment")
+		vAssert(g.LastWasRevoke, "revoke-filter: a reload knows the last message was a revocation")
+	}
+	vReach("revoke-filter-done")
+	if len(peer) == 2 && len(wantLeft) == 1 {
+		vReach("revoke-filter-kept-one-of-two")
+	}
+	if len(peer) >= 1 && len(wantLeft) == 0 {
+		vReach("revoke-filter-all-final")
+	}
+	if len(wantFinal) >= 1 {
+		vReach("revoke-filter-resolution")
+	}
+	if !stored {
+		vReach("revoke-filter-nothing-stored")
+	}
+}
+
+func VerifC02RevokeFilter()     { c02fRevokeFilter(false) }
+func VerifC02RevokeFilterDeep() { c02fRevokeFilter(true) }
